@@ -4,6 +4,8 @@ package server
 
 import (
 	"context"
+	"io"
+	"net/http"
 
 	"github.com/fatedier/frp/verif"
 )
@@ -398,4 +400,45 @@ func verif_Manager_Register(m *Manager, p Plugin) {
 	verif.Ensures(verif.NthArg[string](is, 3, 1) == OpPing, "asked_ping")
 	verif.Ensures(verif.NthArg[string](is, 4, 1) == OpNewWorkConn, "asked_newworkconn")
 	verif.Ensures(verif.NthArg[string](is, 5, 1) == OpNewUserConn, "asked_newuserconn")
+}
+
+// ---------------------------------------------------------------- the HTTP plugin transport
+
+// do: a nil result means the plugin was reached, answered 200, its whole body
+// was read and that body parsed as one JSON document into the response; every
+// other outcome (transport error, other status, short read, unparsable or
+// trailing-garbage body) is an error, so the operation is refused, not allowed.
+//
+//verif:contract (*~/pkg/plugin/server.httpPlugin).do
+//verif:props C15
+func verif_httpPlugin_do(p *httpPlugin, ctx context.Context, r *Request, res *Response) {
+	verif.ResetEvents()
+	err := p.do(ctx, r, res)
+	if err == nil {
+		verif.Ensures(verif.Called("http.Client).Do") && verif.RetErr("http.Client).Do", 1) == nil, "plugin_was_reached")
+		resp := verif.Ret[*http.Response]("http.Client).Do", 0)
+		verif.Ensures(resp.StatusCode == http.StatusOK, "status_is_200")
+		verif.Ensures(verif.Called("io.ReadAll") && verif.RetErr("io.ReadAll", 1) == nil, "whole_body_read")
+		verif.Ensures(verif.CalledWith("io.ReadAll", 0, io.Reader(resp.Body)), "reads_the_response_body")
+		verif.Ensures(verif.Called("encoding/json.Unmarshal") && verif.RetErr("encoding/json.Unmarshal", 0) == nil, "body_parsed_as_one_document")
+		verif.Ensures(verif.CalledWith("encoding/json.Unmarshal", 0, verif.Ret[[]byte]("io.ReadAll", 0)), "parses_exactly_what_was_read")
+	}
+}
+
+// Handle: an error from the transport is an error of the plugin; the content
+// handed back is the one decoded into the response.
+//
+//verif:contract (*~/pkg/plugin/server.httpPlugin).Handle
+//verif:props C15
+func verif_httpPlugin_Handle(p *httpPlugin, ctx context.Context, op string, content any) {
+	verif.ResetEvents()
+	res, ret, err := p.Handle(ctx, op, content)
+	verif.Ensures(verif.CallCount("httpPlugin).do") == 1, "asks_the_plugin_once")
+	if verif.RetErr("httpPlugin).do", 0) != nil {
+		verif.Ensures(err != nil && res == nil && ret == nil, "transport_failure_is_an_error")
+	} else {
+		verif.Ensures(err == nil && res != nil && ret == res.Content, "returns_decoded_response")
+	}
+	r := verif.NthArg[*Request]("httpPlugin).do", 0, 2)
+	verif.Ensures(r.Op == op && r.Content == content, "sends_operation_and_content")
 }
